@@ -63,6 +63,14 @@ impl<T, const N: usize> VerifSeq<T> for [T; N] {
 }
 #[verifier::external_body]
 pub fn verif_elem_arr<T, const N: usize>(v: &[T; N], i: usize) -> (r: T) requires i < N ensures r == v@[i as int] { unimplemented!() }
+// ---- total order on Uint128 (derive(Ord) of the real type: the order of the integers) ----
+impl OrdSpecImpl for Uint128 {
+    open spec fn obeys_cmp_spec() -> bool { true }
+    open spec fn cmp_spec(&self, o: &Uint128) -> core::cmp::Ordering {
+        if self@ < o@ { core::cmp::Ordering::Less } else if self@ == o@ { core::cmp::Ordering::Equal } else { core::cmp::Ordering::Greater }
+    }
+}
+impl Ord for Uint128 { #[verifier::external_body] fn cmp(&self, o: &Uint128) -> (r: core::cmp::Ordering) { unimplemented!() } }
 // ---- `uint` crate U256 as used for the first-deposit share (ASSUMED model: a natural number below 2^256) ----
 #[verifier::external_body] pub struct U256 { _w: u8 }
 pub uninterp spec fn u256_view(x: U256) -> nat;
